@@ -48,17 +48,14 @@ def run_scenarios(scns, variant="asan", procs=None, tag="tls", timeout=600):
     td = os.path.join(vlib.BUILD, "traces")
     os.makedirs(td, exist_ok=True)
 
-    def run(k):
-        if not chunks[k]:
-            return []
-        sf = os.path.join(td, "%s_%d_%d.scn" % (tag, os.getpid(), k))
-        tf = os.path.join(td, "%s_%d_%d.raw" % (tag, os.getpid(), k))
+    def run_once(k, todo, attempt):
+        sf = os.path.join(td, "%s_%d_%d_%d.scn" % (tag, os.getpid(), k, attempt))
+        tf = os.path.join(td, "%s_%d_%d_%d.raw" % (tag, os.getpid(), k, attempt))
         with open(sf, "w") as f:
-            for s in chunks[k]:
+            for s in todo:
                 f.write(scn_line(s) + "\n")
         rc, out, err, san = vlib.run_driver(exe, [creds, sf, tf], timeout=timeout)
         evs = vlib.read_ndjson(tf) if os.path.exists(tf) else []
-        # split per scenario
         per = []
         cur = None
         for e in evs:
@@ -68,18 +65,33 @@ def run_scenarios(scns, variant="asan", procs=None, tag="tls", timeout=600):
             if cur is not None:
                 cur.append(e)
         res = []
-        for i, s in enumerate(chunks[k]):
-            ev = per[i] if i < len(per) else []
+        for i, s in enumerate(todo):
+            if i >= len(per):
+                break
+            ev = per[i]
             complete = bool(ev) and ev[-1].get("e") == "End"
-            res.append({"scn": s, "events": annotate(ev), "complete": complete, "rc": rc, "san": san if not complete or i == len(per) - 1 else None,
-                        "stderr": err if i == 0 else "", "stdout": out if i == 0 else b""})
-        if rc != 0 and san and all(r["complete"] for r in res):
-            res[-1]["san"] = san
+            res.append({"scn": s, "events": annotate(ev), "complete": complete, "rc": rc, "san": None if complete else (san or "process ended (rc=%s) without sanitizer report" % rc),
+                        "stderr": err if (i == 0 or not complete) else "", "stdout": out if i == 0 else b""})
+            if not complete:
+                break
+        if not res and todo:   # died before the first Start
+            res.append({"scn": todo[0], "events": [], "complete": False, "rc": rc, "san": san or "process ended (rc=%s) before the first scenario" % rc, "stderr": err, "stdout": out})
         for p in (sf, tf):
             try:
                 os.unlink(p)
             except OSError:
                 pass
+        return res
+
+    def run(k):
+        todo = list(chunks[k])
+        res = []
+        attempt = 0
+        while todo and attempt < 200:
+            attempt += 1
+            r = run_once(k, todo, attempt)
+            res += r
+            todo = todo[len(r):]      # a crash ends the batch after the crashing scenario; carry on with the rest in a new process
         return res
 
     out = []
